@@ -86,3 +86,77 @@ Proof.
   - intros i Hi. assert (i = 1 \/ i = 2)%nat as [-> | ->] by lia; reflexivity.
   - intros j Hj. injection Hj as ->. reflexivity.
 Qed.
+
+(* the weights of a gap of ANY length L: exactly L interpolants, the (k+1)-th at weight (k+1)/(L+1), strictly inside (0,1) *)
+Lemma fill_weights (a b : quat) (L k : nat) : (k < L)%nat ->
+  length (interpolants interpq a b L) = L /\ nth k (interpolants interpq a b L) None = Some (interpq a b (S k) (S L)) /\
+  0 < INR (S k) / INR (S L) < 1.
+Proof.
+  intros H. split; [apply interpolants_length|]. split; [apply nth_interpolants; exact H|].
+  assert (0 < INR (S k)) by (apply lt_0_INR; lia). assert (INR (S k) < INR (S L)) by (apply lt_INR; lia).
+  split; [apply Rdiv_lt_0_compat; lra|]. apply Rmult_lt_reg_r with (INR (S L)); [lra|].
+  unfold Rdiv. rewrite Rmult_assoc, Rinv_l by lra. lra.
+Qed.
+
+(* ======================================================================================
+   small fixed-N instances: the model evaluated on concrete shapes, and the tactic that compares a REGENERATED
+   instance of the in-place list code (C12_inst_*.v) with it
+   ====================================================================================== *)
+(* ---- the model evaluated on the concrete shapes, for any row type -------------------------------------------- *)
+Section Eval.
+  Variable A : Type.
+  Variable negx : A -> A.
+  Variable jump : A -> A -> bool.
+  Variable interp : A -> A -> nat -> nat -> A.
+  Notation RJ := (remove_jumps negx jump).
+  Notation SN := (slerp_nan negx jump interp).
+
+  Lemma eval_rj3 a b c : RJ [Some a; Some b; Some c] =
+    if jump a b then (if jump b c then [Some a; Some (negx b); Some c] else [Some a; Some (negx b); Some (negx c)])
+    else (if jump b c then [Some a; Some b; Some (negx c)] else [Some a; Some b; Some c]).
+  Proof. unfold remove_jumps, jump_indices. simpl jump_flags. destruct (jump a b), (jump b c); reflexivity. Qed.
+
+  Lemma eval_sn_010 a c : SN [Some a; None; Some c] = Some [Some a; Some (interp a c 1 2); Some c].
+  Proof. reflexivity. Qed.
+  Lemma eval_sn_0110 a d : SN [Some a; None; None; Some d] = Some [Some a; Some (interp a d 1 3); Some (interp a d 2 3); Some d].
+  Proof. reflexivity. Qed.
+  Lemma eval_sn_0010 a b d : SN [Some a; Some b; None; Some d] =
+    if jump a b then Some [Some a; Some (negx b); Some (interp (negx b) (negx d) 1 2); Some (negx d)]
+    else Some [Some a; Some b; Some (interp b d 1 2); Some d].
+  Proof. unfold slerp_nan, remove_jumps, jump_indices. simpl jump_flags. destruct (jump a b); reflexivity. Qed.
+  Lemma eval_sn_01010 a c e : SN [Some a; None; Some c; None; Some e] =
+    Some [Some a; Some (interp a c 1 2); Some c; Some (interp c e 1 2); Some e].
+  Proof. reflexivity. Qed.
+End Eval.
+
+Section Eval4.
+  Variable A : Type.
+  Variable negx : A -> A.
+  Variable jump : A -> A -> bool.
+  Lemma eval_rj4 a b c d : remove_jumps negx jump [Some a; Some b; Some c; Some d] =
+    let s1 := jump a b in let s2 := xorb s1 (jump b c) in let s3 := xorb s2 (jump c d) in
+    [Some a; Some (if s1 then negx b else b); Some (if s2 then negx c else c); Some (if s3 then negx d else d)].
+  Proof. unfold remove_jumps, jump_indices. simpl jump_flags. destruct (jump a b), (jump b c), (jump c d); reflexivity. Qed.
+End Eval4.
+
+(* ---- flattening the model's answer to the list of numbers the traced call returns ---------------------------- *)
+Definition flat_rows (l : list (option quat)) : list R :=
+  flat_map (fun r => match r with Some q => ql q | None => [] end) l.
+Definition flat (o : option (list (option quat))) : list R := match o with Some l => flat_rows l | None => [] end.
+Definition nz4 (a b c d : R) : Prop := 0 < a*a + b*b + c*c + d*d.
+
+(* the constructor's non-zero gate *)
+Ltac gate_pos :=
+  repeat match goal with
+  | |- context [Rlt_dec 0 (sqrt ?e)] =>
+      let H := fresh in
+      destruct (Rlt_dec 0 (sqrt e)) as [H|H]; [clear H | exfalso; apply H; apply sqrt_lt_R0; unfold nz4 in *; lra]
+  end.
+Ltac model_open :=
+  cbv [flat flat_rows flat_map app ql lq interpq negq jumpq dist2 xorb];
+  rewrite ?slerp_is_slerpM; cbv [thr0 slerpM slerp_core lerpn arc arc_s0 arc_s1 lq]; cbv zeta; unfold_q; simpl INR.
+Ltac consts := try replace (1 + 1 + 1) with 3 by ring; try replace (1 + 1) with 2 by ring.
+Ltac inst_eq :=
+  intros; cbv zeta; gate_pos; model_open; consts; unify_fn sqrt; split_paths; cbv [app];
+  unfold Rdiv; unify_atoms; val_eq; ring.
+
